@@ -30,9 +30,10 @@ fn main() {
                     let sink = gens::Sink(o2);
                     match engine.as_str() {
                         "pure" => gens::gen_pure(seed, thorough, &sink),
-                        "seq" => gens::gen_seq(seed, if thorough { 20_000 } else { 1_500 }, if thorough { 120 } else { 40 }, false, &sink),
+                        "seq" => gens::gen_seq(seed, if thorough { 20_000 } else { 1_500 }, if thorough { 120 } else { 40 }, false, false, &sink),
                         "queue" => gens::gen_queue(seed, if thorough { 60_000 } else { 4_000 }, if thorough { 60 } else { 30 }, &sink),
-                        "seq0" => gens::gen_seq(seed, if thorough { 20_000 } else { 1_500 }, if thorough { 120 } else { 40 }, true, &sink),
+                        "seq0" => gens::gen_seq(seed, if thorough { 20_000 } else { 1_500 }, if thorough { 120 } else { 40 }, true, false, &sink),
+                        "seqr" => gens::gen_seq(seed, if thorough { 20_000 } else { 1_500 }, if thorough { 120 } else { 40 }, true, true, &sink),
                         _ => {
                             eprintln!("unknown engine {engine}");
                             std::process::exit(2);
